@@ -848,11 +848,13 @@ def generate(unit, template_path, canary=False, extra_fns=()):
         # (typically introduced by a change). They get NO contract: their bodies are checked for safety and their
         # results are unconstrained, so a caller's postcondition can only still hold if it does not depend on them.
         extra = []
-        for (rel, header, name, props) in extra_fns:
-            extra.append(("text", ["", f"// auto-included helper `{name}` from {rel} (called by an extracted body; no contract)", header + " {"], 0))
+        for ef in extra_fns:
+            (rel, header, name, props), opaque = ef[:4], (len(ef) > 4 and ef[4])
+            extra.append(("text", ["", f"// auto-included helper `{name}` from {rel} (called by an extracted body; no contract"
+                                   + ("; body OUTSIDE the Verus subset: kept opaque, result arbitrary)" if opaque else ")"), header + " {"], 0))
             extra.append(("fn", {"file": rel, "impl": header, "name": name, "props": list(props), "ret": None, "clauses": [], "loops": [],
-                                 "rewrites": [], "inserts": [], "sigs": [], "attrs": [], "tline": 0, "as": None, "novis": False,
-                                 "external_body": False, "arm": None}))
+                                 "rewrites": [], "inserts": [], "sigs": [], "attrs": ["#[verifier::external_body]"] if opaque else [], "tline": 0, "as": None, "novis": False,
+                                 "external_body": bool(opaque), "arm": None}))
             extra.append(("text", ["}"], 0))
         # place before the closing `} // verus!` of the template
         for bi in range(len(blocks) - 1, -1, -1):
@@ -1024,6 +1026,8 @@ def generate(unit, template_path, canary=False, extra_fns=()):
                     body = src.text[bo:bc + 1]
             where = f"{spec['file']}:{line_of(src.text, s0)}::{spec['name']}"
             body_hash = hashlib.sha256((sig + body).encode()).hexdigest()[:16]
+            if spec.get("external_body"):
+                body = "{ unimplemented!() }"
             # --- signature
             for frm, to in spec["sigs"]:
                 if frm not in sig:
@@ -1077,9 +1081,12 @@ def generate(unit, template_path, canary=False, extra_fns=()):
                         hit = mm
                         break
                 if hit is None:
-                    raise AnchorLost(f"{where}: cut anchor not found at statement level: `{rx}`")
-                g.rewrites.append({"rule": "R16", "where": where, "before": f"tail from /{rx}/ ({line_of(body, hit.start())} lines into the body)", "after": f"return {repl};"})
-                body = body[:hit.start()] + f"return {repl}; }}"
+                    # soft: without the anchor nothing is cut and the whole body is verified as it is (a restructured function may
+                    # well be inside the subset; if not, the front end says so)
+                    g.rewrites.append({"rule": "R16", "where": where, "before": f"/{rx}/", "after": "(anchor not found: nothing cut)", "count": 0})
+                else:
+                    g.rewrites.append({"rule": "R16", "where": where, "before": f"tail from /{rx}/ ({line_of(body, hit.start())} lines into the body)", "after": f"return {repl};"})
+                    body = body[:hit.start()] + f"return {repl}; }}"
             for rule, frm, to, allocc in spec["rewrites"]:
                 body = apply_rewrite(body, rule, frm, to, allocc, g.rewrites, where)
             if spec.get("f64cmp"):
@@ -1353,6 +1360,7 @@ def generate(unit, template_path, canary=False, extra_fns=()):
                 "props": spec["props"], "gen_start": fstart, "gen_end": len(g.lines),
                 "clauses": clause_ids, "hash": body_hash,
                 "n_asserts": sum(1 for r in g.rewrites if r["rule"] == "R4" and r["where"] == where),
+                "opaque": bool(spec.get("external_body")),
             })
     return g
 
